@@ -27,7 +27,9 @@ fn main() {
     let hist = gen_history(&mut rng, len, max_live);
     let dir = slv::fixtures::scratch();
     let storage = if in_mem { StorageType::InMemory } else { StorageType::Filesystem };
-    let opts = slv::fixtures::opts(dir.path(), storage);
+    let mut opts = slv::fixtures::opts(dir.path(), storage);
+    let positions = rng.chance(2, 3);
+    opts.enable_positions = positions;
     let mem: Option<Arc<dyn Storage>> =
       if in_mem { Some(Arc::new(InMemoryStorage::new(dir.path().to_path_buf()))) } else { None };
     let idx = match &mem {
@@ -78,7 +80,7 @@ fn main() {
     let hl: Vec<String> = hist.iter().map(|a| a.coq()).collect();
     cases.push(coq::pair(&coq::list(&hl), &coq::list(&obs)));
     meta.push(serde_json::json!({
-      "case": case_no, "storage": if in_mem {"memory"} else {"fs"}, "max_live_handles": max_live,
+      "case": case_no, "storage": if in_mem {"memory"} else {"fs"}, "positions": positions, "max_live_handles": max_live,
       "history": hl, "final_contents": obs_json.last(), "errors": errs,
       "nt": hist.iter().filter(|a| matches!(a, Api::Commit(_))).count() >= 2,
     }));
